@@ -136,6 +136,11 @@ def check_program(name, slots, program, w, wd, sieve, stats, files):
     for mname, before, emitted in expansions:
         if emitted:
             starts_at.setdefault(before * 2 * w, set()).add(mname.split('.')[-1])
+    always_emits = {}
+    silent = {mname.split('.')[-1] for mname, before, emitted in expansions if not emitted}
+    for mname, before, emitted in expansions:
+        if mname.split('.')[-1] not in silent:
+            always_emits.setdefault(mname.split('.')[-1], set()).add(before * 2 * w)
     for tname, addr in table.items():
         if any(st[0] in ('pad', 'wflip') for st in prim):
             break  # addresses are not 2w x (ops before) in programs with pads / wflips
@@ -144,6 +149,11 @@ def check_program(name, slots, program, w, wd, sieve, stats, files):
         toks = [t for t in re.findall(r'[A-Za-z_][A-Za-z_0-9]*', tname[:-len(':start:')]) if t in {m.split('.')[-1] for m in macro_names}]
         if toks and starts_at.get(addr) and toks[-1] not in starts_at[addr]:
             bad('an expansion-path entry sits at a statement of another macro', {'address': addr, 'expansions starting there': sorted(starts_at.get(addr, []))}, tname)
+            break
+        # ... and when every expansion of the macro it names emits something, it sits where one of them starts (not, say, at the end of the code)
+        if toks and toks[-1] in always_emits and addr not in always_emits[toks[-1]]:
+            bad('an expansion-path entry does not sit at the start of an expansion of the macro it names', {'expansions of it start at': sorted(always_emits[toks[-1]])},
+                {'entry': tname, 'address': addr})
             break
     # (2) round trip
     p2 = wd / 'roundtrip.fjd'
